@@ -13,3 +13,8 @@ def declare(spec):
                       raises={'*': ["not is_none(ufn('fut_exc', VAL, self))"]},
                       ensures=["is_none(ufn('fut_exc', VAL, self))", "ufn('fut_res', VAL, self) == result"],
                       note='T-TORNADO Future.result(): returns the result or re-raises the exception'))
+    # ---- time (ghost clock, monotone; A-REAL)
+    spec.ghost('clock', REAL)
+    spec.add(Contract('time:time', ret=REAL, trusted=True, modifies=['clock'],
+                      ensures=['clock >= old(clock)', 'result == clock'],
+                      note='T-KERNEL time.time(): reads the monotone ghost clock (time may pass)'))
